@@ -55,6 +55,8 @@ type acctMeta struct {
 	// createManagerKeyScope from the in-memory cointype key, follows the legacy rule).
 	stored bool
 	gen    int
+	// fp: the master key fingerprint the account was imported with (NewAccountWatchingOnly); 0 for seed accounts
+	fp uint32
 }
 
 type handle struct {
@@ -95,6 +97,17 @@ type runner struct {
 	// C04 boundary: has the transaction store (wtxmgr namespace of the same file) been written to yet?
 	txRecorded bool
 	nTx        int
+	// issuedInfo: scope/acct/branch/index -> the derivation info (scope, InternalAccount, Account, branch, index,
+	// master key fingerprint) the object returned by nextAddresses reported when the address was issued
+	issuedInfo map[string]string
+	// heldKeys: private keys handed out by DeriveFromKeyPathCache that the harness (a caller) still holds
+	heldKeys []heldKey
+}
+
+type heldKey struct {
+	priv *btcec.PrivateKey
+	want []byte
+	desc string
 }
 
 func (r *runner) Close() {
@@ -195,7 +208,17 @@ func (r *runner) chainedOracle(scope string, acct, br, idx uint32) (string, []by
 	if ak == nil {
 		return "", nil, nil
 	}
-	k, err := ak.Path(true, br, idx)
+	// Steps below the account.  The account key the manager derives from is never the in-memory result of a
+	// derivation: loadAccountInfo / Unlock always re-read it from its row (hdkeychain.NewKeyFromString: 32 bytes,
+	// zero padded), so a HARDENED branch step (DeriveFromKeyPath / DeriveFromKeyPathCache only, private account key)
+	// is plain BIP32 even when the account key has leading zero bytes.  The branch key is the in-memory result of
+	// DeriveNonStandard (minimal big-endian bytes), so a hardened index step follows btcsuite's legacy rule.
+	// (For the non-hardened steps of issued addresses the two rules coincide.)
+	bk, err := ak.Child(br, false)
+	if err != nil {
+		return "", nil, nil
+	}
+	k, err := bk.Child(idx, true)
 	if err != nil {
 		return "", nil, nil
 	}
@@ -209,7 +232,11 @@ func ckey(scope string, acct, br, idx uint32) string {
 
 // registerBranch makes the registry know indices [0,upto] of a branch (address ids, pubkeys, private keys).
 func (r *runner) registerBranch(scope string, acct, br uint32, upto uint32) {
-	for i := uint32(0); i <= upto; i++ {
+	start := uint32(0)
+	if upto >= 4096 {
+		start = upto // a far-away (e.g. hardened) index: that one only, never the whole range below it
+	}
+	for i := start; i <= upto && i >= start; i++ {
 		d := ckey(scope, acct, br, i)
 		gen := 0
 		if m := r.accts[scope][acct]; m != nil {
@@ -389,7 +416,7 @@ func (r *runner) scanImage() []string {
 							if n.secret {
 								kind = "secret"
 							}
-							add(fmt.Sprintf("C04 key=waddrmgr-%s.%s: waddrmgr bucket %s holds %s in the clear (a transaction has been recorded; the address manager namespace must stay clean regardless)", kind, n.class, pathStr(path), n.what))
+							add(fmt.Sprintf("C04 key=waddrmgr-%s.%s: waddrmgr bucket %s holds %s in the clear (a transaction has been recorded, the address manager namespace must stay clean regardless)", kind, n.class, pathStr(path), n.what))
 						}
 					}
 				})
